@@ -37,6 +37,9 @@ def scenarios(tier):
     for n0, single, w, pat in cfgs:
         out.append(Scenario('hist', n0=n0, singleton=single, w=w, pat=pat, max_age=0, tier=tier))
     out.append(Scenario('hist', n0=2, singleton=False, w=0.0, pat='obedient', max_age=2, tier=tier))
+    # process creation fails once (the retry inside spawn_process must make up for it) at the j-th attempt
+    for j in ((4, 5) if tier == 'quick' else (4, 5, 6, 7)):
+        out.append(Scenario('hist', n0=2, singleton=False, w=0.0, pat='obedient', max_age=0, tier=tier, fault=j))
     # dense periodic checks (0.3 s): a kill's 0.1 s polling loop and the slow workers' deaths straddle check ticks
     out.append(Scenario('hist', n0=2, singleton=False, w=0.0, pat='slow', max_age=0, tier=tier, tick=0.3))
     return out
@@ -100,6 +103,9 @@ def run(scn, ch):
                            WSpec('z', numprocesses=1, graceful_timeout=G)],
                       check_delay=scn.p.get('tick', 1.0))
         world.deaths_only = ('a',)
+        if scn.p.get('fault'):
+            j = scn.p['fault']
+            world.kernel.popen_fault = lambda k, attempt, info: OSError(11, 'EAGAIN') if attempt == j else None
         if scn.max_age:
             world.randint_hook = lambda a, b: (a, b)[world.ex.choose('randint', ['min', 'max'], cost=1)]
         return world
